@@ -4,8 +4,8 @@ From Coq Require Import ZArith Bool Ascii String.
 From Coq Require Import List.
 Import ListNotations.
 From Verif Require Import Fmt.TextModel Fmt.TextProofs Fmt.X86FmtModel Fmt.X86FmtProofs Fmt.X86RegTableCheck.
-From Verif Require Import Fmt.X86InstModel Fmt.X86InstProofs Fmt.A64FmtModel Fmt.A64FmtProofs Fmt.A64InstProofs Fmt.LogLine Fmt.LogLineX86.
-From VerifGen Require Import X86RegTables.
+From Verif Require Import Fmt.X86InstModel Fmt.X86InstProofs Fmt.A64FmtModel Fmt.A64FmtProofs Fmt.A64InstProofs Fmt.LogLine Fmt.LogLineX86 Fmt.LogLineA64 Fmt.LabelVirt Fmt.DataNode Fmt.NodeLine Fmt.InstNamesCheck Fmt.Corollaries.
+From VerifGen Require Import X86RegTables InstNames.
 Local Open Scope Z_scope.
 
 (* String::_op_number: every 64-bit value, bases 2/8/10/16, every combination of the sign/space/alternate/signed flags and
@@ -51,6 +51,13 @@ Theorem C20_name_tables_match :
   (forall g, 1 <= g <= 6 -> aj_seg_prefix x86_reg_tables g = fmt_reg SReg g).
 Proof. exact (tables_match_sound x86_reg_tables x86_reg_tables_ok). Qed.
 Print Assumptions C20_name_tables_match.
+
+(* … and for EVERY id from 256 up (no count/special entry of the dumped tables reaches 256; both sides print an id-independent prefix
+   followed by the decimal id): together with the theorem above the transliterated format_register equals the model for all ids *)
+Theorem C20_name_tables_match_all_ids : forall t id, 0 <= t < 32 -> 0 <= id ->
+  aj_format_register x86_reg_tables t id = fmt_reg (rt_of_code t) id.
+Proof. exact (tables_match_all x86_reg_tables x86_reg_tables_ok x86_reg_tables_big_ok). Qed.
+Print Assumptions C20_name_tables_match_all_ids.
 
 (* x86 operands: register, memory (size prefix, segment, abs/rel, base register or label, index, scale, signed displacement in
    decimal or hexadecimal), immediate, label — for EVERY operand of the domain op_ok (all 32-bit ids, all 64-bit displacements and
@@ -144,3 +151,85 @@ Theorem C20_x86_log_line_transcript : forall f i pad1 pad2 bytes rel imm comment
     parse_inst txt = Some (canon_inst i) /\ parse_hexcol col = Some (hexcol_spec bytes rel imm).
 Proof. exact x86_log_line_transcript. Qed.
 Print Assumptions C20_x86_log_line_transcript.
+
+(* capstone (AArch64): the same for the logger line of an AArch64 instruction (extend operator printed, as /repo does since f9834ed) *)
+Theorem C20_a64_log_line_transcript : forall f i pad1 pad2 bytes rel imm comment,
+  a64_inst_ok i -> Forall (fun v => 0 <= v < 256) bytes -> bytes <> [] ->
+  exists txt col,
+    parse_log_line (finish_line (a64_fmt_inst true f i) pad1 pad2 (Some (bytes, rel, imm)) comment) = Some (txt, col, comment) /\
+    parse_a64_inst txt = Some (a64_canon_inst i) /\ parse_hexcol col = Some (hexcol_spec bytes rel imm).
+Proof. exact a64_log_line_transcript. Qed.
+Print Assumptions C20_a64_log_line_transcript.
+
+(* Formatter::format_label: an anonymous label that carries a name prints "L<id>@name"; the id and the name are recovered *)
+Theorem C20_anon_label_roundtrip : forall id name, 0 <= id < two32 ->
+  parse_anon_label (fmt_label (LNamed id true PNone name)) = Some (id, name).
+Proof. exact anon_label_roundtrip. Qed.
+Print Assumptions C20_anon_label_roundtrip.
+
+(* named labels are free user text: a global label called "rax" prints exactly like the register (nothing the formatter could do) *)
+Theorem C20_named_label_refuted : exists l t i, fmt_label l = fmt_reg t i.
+Proof. eexists _, _, _. exact named_label_collides. Qed.
+Print Assumptions C20_named_label_refuted.
+
+(* unnamed virtual registers of a Compiler: "%<index>" with the "@type" suffix under kRegType, or under kRegCasts when the operand's
+   register type differs from the virtual register's: index and shown type are recovered *)
+Theorem C20_x86_virt_reg_roundtrip : forall regtype regcasts index vtype optype, 0 <= index < two32 -> named optype = true ->
+  parse_virt (x86_fmt_virt regtype regcasts None index vtype optype) =
+  Some (index, if regtype || (regcasts && negb (rt_code vtype =? rt_code optype)) then Some optype else None).
+Proof. exact virt_roundtrip. Qed.
+Print Assumptions C20_x86_virt_reg_roundtrip.
+
+(* Formatter::format_data: ".repeat N " (N > 1), the directive (.db .dw .dd .dq / .byte .hword .word .xword), the items as
+   zero-padded 0x… literals separated by ", " — repeat count, directive and every item value are recovered *)
+Theorem C20_data_roundtrip : forall a64 size items rep,
+  (size = 1 \/ size = 2 \/ size = 4 \/ size = 8) -> Forall (fun v => 0 <= v < two64) items -> 1 <= rep < two32 ->
+  parse_data (render (data_toks a64 size items rep)) = Some (rep, "."%char :: s (data_word a64 size), items).
+Proof. exact data_roundtrip. Qed.
+Print Assumptions C20_data_roundtrip.
+
+(* Builder instruction nodes (Formatter::format_node): text, padding, "; " inline comment — instruction and comment are recovered *)
+Theorem C20_x86_node_line : forall f i pad inline, inst_ok i ->
+  let '(txt, cm) := parse_node_line (fmt_node f pad (NInst i) inline) in
+  parse_inst txt = Some (canon_inst i) /\ cm = match inline with [] => None | _ => Some inline end.
+Proof. exact node_line_roundtrip. Qed.
+Print Assumptions C20_x86_node_line.
+
+(* (T) the mnemonics of the InstId enums, regenerated from the working tree on every run: every x86 mnemonic satisfies the premise
+   mnem_ok of C20_x86_inst_roundtrip (an identifier, not a prefix keyword) and no two x86 ids share a name (the mnemonic read off a line
+   determines the id); every AArch64 mnemonic satisfies mnem64_ok (AArch64 ids are NOT determined by the name: add / add (ASIMD) …) *)
+Theorem C20_inst_names :
+  Forall (fun n => mnem_ok (s n)) x86_inst_names /\ NoDup (map s x86_inst_names) /\
+  Forall (fun n => mnem64_ok (s n)) a64_inst_names.
+Proof. exact (names_check_sound _ _ inst_names_ok). Qed.
+Print Assumptions C20_inst_names.
+
+(* the text determines the instruction, whatever the format flags were on either side (x86 and AArch64 lines, AArch64 operands) *)
+Theorem C20_x86_inst_text_injective : forall f1 f2 i1 i2, inst_ok i1 -> inst_ok i2 ->
+  fmt_inst f1 i1 = fmt_inst f2 i2 -> canon_inst i1 = canon_inst i2.
+Proof. exact x86_inst_text_injective. Qed.
+Print Assumptions C20_x86_inst_text_injective.
+
+Theorem C20_a64_inst_text_injective : forall f1 f2 i1 i2, a64_inst_ok i1 -> a64_inst_ok i2 ->
+  a64_fmt_inst true f1 i1 = a64_fmt_inst true f2 i2 -> a64_canon_inst i1 = a64_canon_inst i2.
+Proof. exact a64_inst_text_injective. Qed.
+Print Assumptions C20_a64_inst_text_injective.
+
+Theorem C20_a64_operand_text_injective : forall f1 f2 o1 o2, a64_op_ok o1 -> a64_op_ok o2 ->
+  a64_fmt_operand true f1 o1 = a64_fmt_operand true f2 o2 -> a64_canon_op o1 = a64_canon_op o2.
+Proof. exact a64_operand_text_injective. Qed.
+Print Assumptions C20_a64_operand_text_injective.
+
+(* the logger line WITHOUT kMachineCode (text, padding, "; " comment, newline): instruction and comment are recovered *)
+Theorem C20_x86_plain_log_line : forall f i pad1 pad2 comment, inst_ok i ->
+  let '(txt, cm) := parse_node_line (removelast (finish_line (fmt_inst f i) pad1 pad2 None comment)) in
+  parse_inst txt = Some (canon_inst i) /\ cm = match comment with [] => None | _ => Some comment end.
+Proof. exact x86_plain_log_line. Qed.
+Print Assumptions C20_x86_plain_log_line.
+
+(* memory operands printed through a Compiler (base/index may be virtual registers: name or %index, @type cast): the model is the
+   physical text with another register printer; without virtual registers it IS the physical text (so all operand theorems apply) *)
+Theorem C20_x86_mem_virt_conservative : forall regtype regcasts f m,
+  fmt_mem_virt [] regtype regcasts f m = fmt_operand f (OMem m).
+Proof. exact fmt_mem_virt_nil. Qed.
+Print Assumptions C20_x86_mem_virt_conservative.
